@@ -32,6 +32,54 @@ theorem popOrder_eq_reverse (m : Nat) (h : m < 2 ^ 16) : x86PopOrder m = (bitsAs
     simp [Nat.testBit_lt_two_pow this]
   rw [this, List.append_nil]
 
+theorem testBit_clearBit5 (m i : Nat) (hi : i < 32) : (clearBit m 5).testBit i = (m.testBit i && (i != 5)) := by
+  unfold clearBit
+  rw [Nat.testBit_and]
+  congr 1
+  have : ∀ j, j < 32 → Nat.testBit (2 ^ 32 - 1 - 2 ^ 5) j = (j != 5) := by decide
+  exact this i hi
+
+/-- clearing the (set) frame-pointer bit removes exactly one register from the push loop -/
+theorem bitsAsc_clearBit5_length (m : Nat) (h : m.testBit 5 = true) :
+    (bitsAsc (clearBit m 5) 32).length + 1 = (bitsAsc m 32).length := by
+  unfold bitsAsc
+  have h32 : List.range 32 = List.range 5 ++ 5 :: (List.range 26).map (6 + ·) := by decide
+  rw [h32]
+  simp only [List.filter_append, List.filter_cons, List.length_append]
+  have e1 : (List.range 5).filter (fun i => (clearBit m 5).testBit i) = (List.range 5).filter (fun i => m.testBit i) := by
+    apply List.filter_congr
+    intro i hi
+    rw [List.mem_range] at hi
+    rw [testBit_clearBit5 m i (by omega)]
+    have : (i != 5) = true := by simp; omega
+    rw [this, Bool.and_true]
+  have e2 : ((List.range 26).map (6 + ·)).filter (fun i => (clearBit m 5).testBit i)
+      = ((List.range 26).map (6 + ·)).filter (fun i => m.testBit i) := by
+    apply List.filter_congr
+    intro i hi
+    rw [List.mem_map] at hi
+    obtain ⟨j, hj, rfl⟩ := hi
+    rw [List.mem_range] at hj
+    rw [testBit_clearBit5 m (6 + j) (by omega)]
+    have : ((6 + j) != 5) = true := by simp; omega
+    rw [this, Bool.and_true]
+  have e3 : (clearBit m 5).testBit 5 = false := by rw [testBit_clearBit5 m 5 (by omega)]; simp
+  rw [e1, e2, e3, h]
+  simp only [Bool.false_eq_true, if_false, if_true, List.length_cons]
+  omega
+
+theorem mem_bitsAsc_clearBit5 (m r : Nat) : r ∈ bitsAsc (clearBit m 5) 32 ↔ r ∈ bitsAsc m 32 ∧ r ≠ 5 := by
+  rw [mem_bitsAsc, mem_bitsAsc]
+  constructor
+  · rintro ⟨h1, h2⟩
+    rw [testBit_clearBit5 m r h1] at h2
+    simp only [Bool.and_eq_true, bne_iff_ne, ne_eq] at h2
+    exact ⟨⟨h1, h2.1⟩, h2.2⟩
+  · rintro ⟨⟨h1, h2⟩, h3⟩
+    refine ⟨h1, ?_⟩
+    rw [testBit_clearBit5 m r h1, h2]
+    simp [h3]
+
 /-! ### slots -/
 
 theorem slotsAscending_append : ∀ (l1 l2 : List Slot) (lo : Nat),
